@@ -377,7 +377,9 @@ def main():
             known_seen[k] = known_seen.get(k, 0) + v
     rc = 0
     for kf in known.get("known", []):
-        if kf.get("property") == prop and known_seen.get(kf["id"], 0) > 0:
+        kprops = kf.get("property")
+        kprops = kprops if isinstance(kprops, list) else [kprops]
+        if prop in kprops and known_seen.get(kf["id"], 0) > 0:
             print("KNOWN-FINDING: property=%s %s" % (prop, kf["what"]))
 
     if violations:
